@@ -135,7 +135,7 @@ def opset_sensitive_keys() -> dict[str, Any]:
     # layouts have their own findings and are not what the opset question is about
     idx = [i for i, tp in enumerate(vs) if tp.get("component") in comps and not tp.get("input_params") and not tp.get("inputs_as_nchw") and not tp.get("outputs_as_nchw")
            and not tp.get("_enable_double_precision_test_setting") and "complex" not in C.key_of(tp)]
-    return {"files": files, "components": sorted(comps), "indices": idx}
+    return {"files": files, "components": sorted(comps), "indices": idx, "component_of": {str(i): vs[i].get("component") for i in idx}}
 
 
 def context_job(indices: list[int], opsets: list[int]) -> list[dict[str, Any]]:
